@@ -34,12 +34,13 @@ type Prog struct {
 	overlaid []string
 	sentinel map[*ssa.Global]int
 	notes    map[string]bool
+	constObjs map[*ssa.Global]string
 }
 
 func loadProg(repoDir, verifDir string) (*Prog, error) {
 	p := &Prog{repoDir: repoDir, verifDir: verifDir, pkgs: map[string]*ssa.Package{}, fns: map[string]*ssa.Function{},
 		tags: map[string]int{}, globals: map[*ssa.Global]string{}, funcIDs: map[*ssa.Function]string{}, idFunc: map[string]*ssa.Function{},
-		ifaceObj: map[string]Val{}, ifaceTyp: map[string]types.Type{}, sentinel: map[*ssa.Global]int{}, notes: map[string]bool{}}
+		ifaceObj: map[string]Val{}, ifaceTyp: map[string]types.Type{}, sentinel: map[*ssa.Global]int{}, notes: map[string]bool{}, constObjs: map[*ssa.Global]string{}}
 	// contract files live in /repo behind the build tag; if one is missing
 	// (e.g. a checkout without the hook commits) the mirror kept in /verif is overlaid.
 	overlay := map[string][]byte{}
@@ -106,7 +107,7 @@ func loadProg(repoDir, verifDir string) (*Prog, error) {
 		p.fns["::"+fn.String()] = fn
 	}
 	// contracts: parse from the files actually used (repo or overlay)
-	p.cs = &Contracts{Specs: map[string]*FuncSpec{}, Pures: map[string]*PureFn{}, Globals: map[string]string{}}
+	p.cs = &Contracts{Specs: map[string]*FuncSpec{}, Pures: map[string]*PureFn{}, Globals: map[string]string{}, ConstBytes: map[string][]byte{}}
 	var paths []string
 	for path := range dirs {
 		paths = append(paths, path)
@@ -223,6 +224,28 @@ func (p *Prog) globalValue(e *Exec, s *State, g *ssa.Global) (Val, bool) {
 	t := g.Type().(*types.Pointer).Elem()
 	if cells(t) == 0 {
 		return Val{}, true
+	}
+	if bs, ok := p.cs.ConstBytes[g.Pkg.Pkg.Path()+"."+g.Name()]; ok {
+		// a constant byte slice: its backing array is a fixed old object with known contents
+		obj := fmt.Sprintf("%d", 1500000+len(p.constObjs))
+		if o, have := p.constObjs[g]; have {
+			obj = o
+		} else {
+			p.constObjs[g] = obj
+		}
+		p.note(fmt.Sprintf("package-level byte slice %s is treated as the constant % x (checked: no function stores to the variable; writes through it are not excluded)", g.Name(), bs))
+		if e != nil {
+			key := "constbytes|" + obj + "|" + e.root.name
+			if !e.c.decls[key] {
+				e.c.decls[key] = true
+				for i, b := range bs {
+					e.c.emit(fmt.Sprintf("(assert (= (select (select %s %s) %d) %d))", e.root.H0["u8"], obj, i, b), false)
+				}
+				e.c.emit(fmt.Sprintf("(assert (= (tag %s) %d))", obj, p.tagOf(types.Typ[types.Uint8])), false)
+			}
+		}
+		n := fmt.Sprint(len(bs))
+		return Val{obj, "0", n, n}, true
 	}
 	if types.IsInterface(t) && isErrorType(t) {
 		id, ok := p.sentinel[g]
